@@ -308,23 +308,23 @@ theorem ttl_update_legacy_counterexample :
         (retentionDeadline f7DB.clock f7DB.ttl)).1.map Seg.start = [1715126400000000000, 1714521600000000000]) := by
   decide
 
-/-- F14 witness: TTL 5 d, clock 2024-05-10T06:00Z, segments 05-05 … (all inside the TTL by the
+/-- F71 witness: TTL 5 d, clock 2024-05-10T06:00Z, segments 05-05 … (all inside the TTL by the
     clock); a write stamped 2024-05-20 ticks the database: the handler as written at the pinned
     commit runs retention with the *event* time and deletes everything before 05-15; the repaired
     handler (clock time) deletes nothing. -/
-def f14DB : DB :=
+def f71DB : DB :=
   { unit := .day, num := 1, ttl := ⟨.day, 5⟩, taskDuration := 5 * dayNs, clock := 1715320800000000000,
     latestTick := 0, rotationDead := false,
     lst := [⟨1714867200000000000, 1714953600000000000, some 1714953600000000000, 0⟩,
             ⟨1715299200000000000, 1715385600000000000, some 1715385600000000000, 0⟩] }
 
 theorem tick_event_time_legacy_counterexample :
-    ((tick_legacy (fun _ => 0) f14DB 1716184800000000000).2.lst.map Seg.start = []) ∧
-    ((tick (fun _ => 0) f14DB 1716184800000000000).2.lst.map Seg.start =
+    ((tick_legacy (fun _ => 0) f71DB 1716184800000000000).2.lst.map Seg.start = []) ∧
+    ((tick (fun _ => 0) f71DB 1716184800000000000).2.lst.map Seg.start =
       [1714867200000000000, 1715299200000000000]) := by
   decide
 
-example : TraceOK (fun _ => 0) f14DB [.tick 1716184800000000000, .ttl ⟨.day, 1⟩, .select ⟨0, 1716184800000000000, true, true⟩,
+example : TraceOK (fun _ => 0) f71DB [.tick 1716184800000000000, .ttl ⟨.day, 1⟩, .select ⟨0, 1716184800000000000, true, true⟩,
     .retention, .delold] := retention_property _ _ _
 
 /-- The C06 machine (`C06.step`, about which `partition_reachable` speaks) is the projection of the
